@@ -428,6 +428,8 @@ def features_of(ev, prog):
     if ins and ins[0] in regs and isinstance(regs[ins[0]], dict):
         x = regs[ins[0]]
         feats["kind"] = x.get("kind", x.get("t"))
+        if isinstance(x.get("blocks"), list):
+            feats["in0_has_blocks"] = bool(x["blocks"])
         feats["sym"] = x.get("sym", "")
         c = ev.get("args", {}).get("c")
         if isinstance(c, list) and len(c) == 2:
